@@ -563,7 +563,7 @@ func TestVerifC18(t *testing.T) {
 				case <-done:
 					finished = true
 				case <-hook.ch:
-				case <-time.After(300 * time.Millisecond):
+				case <-time.After(2 * time.Second):
 					syncTimeouts++
 				}
 			}
